@@ -73,6 +73,9 @@ type (
 )
 
 func nowUnix() int64 {
+	if t, ok := verifNow(); ok {
+		return t
+	}
 	return time.Now().Unix()
 }
 
@@ -114,7 +117,9 @@ func (hc *httpCache) Get() (status Status, response *HTTPResponse) {
 	// 如果done不为空，表示需要等待确认当前请求状态
 	if done != nil {
 		// TODO 后续再考虑是否需要添加timeout（proxy部分有超时，因此暂时可不添加)
+		verifPoint("get.registered", hc)
 		<-done
+		verifPoint("get.woken", hc)
 		// 完成后重新获取当前状态与响应
 		// 此时状态只可能是hit for pass 或者 hit
 		// 而此两种状态的数据缓存均不会立即失效，因此可以从hc中获取
@@ -257,6 +262,7 @@ func (hc *httpCache) get() (status Status, done chan struct{}, data *HTTPRespons
 func (hc *httpCache) HitForPass(ttl int) {
 	hc.mu.Lock()
 	defer hc.mu.Unlock()
+	verifPoint("hitForPass.locked", hc)
 	if ttl <= 0 {
 		ttl = defaultHitForPassSeconds
 	}
@@ -267,6 +273,7 @@ func (hc *httpCache) HitForPass(ttl int) {
 	for _, ch := range list {
 		ch <- struct{}{}
 	}
+	verifPoint("drained", hc)
 	err := hc.saveToStore()
 	if err != nil {
 		log.Default().Error("save cache to store fail",
@@ -281,6 +288,7 @@ func (hc *httpCache) HitForPass(ttl int) {
 func (hc *httpCache) Cacheable(resp *HTTPResponse, ttl int) {
 	hc.mu.Lock()
 	defer hc.mu.Unlock()
+	verifPoint("cacheable.locked", hc)
 	// 如果是可缓存数据，则选择默认的best compression
 	resp.CompressSrv = compress.BestCompression
 	_ = resp.Compress()
@@ -293,6 +301,7 @@ func (hc *httpCache) Cacheable(resp *HTTPResponse, ttl int) {
 	for _, ch := range list {
 		ch <- struct{}{}
 	}
+	verifPoint("drained", hc)
 	err := hc.saveToStore()
 	if err != nil {
 		log.Default().Error("save cache to store fail",
